@@ -146,21 +146,26 @@ End Ts.
 Section Rs.
   Variable q : nquirks.
   Hypothesis Hq1 : q_rs_elseif_nests q = false.
-  Hypothesis Hq2 : q_rs_table_from_code q = false.
 
+  (* the table found in the source and the corrected table both agree with `counts` *)
   Lemma rs_facts k : kind_ok Rs k = true -> is_branch k = false -> k <> KIf ->
-                     kind_facts ("async_block" :: rs_nesting_types) rs_names k = true.
-  Proof. destruct k as [| | | | | | | | | | | | | | | | | | | |fk name line col]; try destruct fk; intros H1 H2 H3;
+                     kind_facts (rs_types q) rs_names k = true.
+  Proof. unfold rs_types. destruct (q_rs_table_from_code q); destruct k as [| | | | | | | | | | | | | | | | | | | |fk name line col]; try destruct fk; intros H1 H2 H3;
            try discriminate; try congruence; reflexivity. Qed.
 
   Lemma rs_calc_exact f : fn_good Rs f -> rs_calc q f = doc_depth (fn_body f).
   Proof.
-    intros (Hw & Ha & _ & Hk). unfold rs_calc, fn_node, rs_types. rewrite Hq1, Hq2. cbn [negb].
-    rewrite (calc_value ("async_block" :: rs_nesting_types) true rs_names eq_refl eq_refl eq_refl (kind_ok Rs)
-                        eq_refl eq_refl eq_refl eq_refl rs_facts rs_start_depth rs_body_type).
+    intros (Hw & Ha & _ & Hk). unfold rs_calc, fn_node. rewrite Hq1. cbn [negb].
+    assert (Hb : plain (rs_types q) rs_names (n_block rs_names) = true) by (unfold rs_types; destruct (q_rs_table_from_code q); reflexivity).
+    assert (Ho : plain (rs_types q) rs_names "{" = true) by (unfold rs_types; destruct (q_rs_table_from_code q); reflexivity).
+    assert (Hc : plain (rs_types q) rs_names "}" = true) by (unfold rs_types; destruct (q_rs_table_from_code q); reflexivity).
+    assert (Hif : smem (n_if rs_names) (rs_types q) = true) by (unfold rs_types; destruct (q_rs_table_from_code q); reflexivity).
+    assert (Hel : smem (n_else rs_names) (rs_types q) = false) by (unfold rs_types; destruct (q_rs_table_from_code q); reflexivity).
+    rewrite (calc_value (rs_types q) true rs_names Hb Ho Hc (kind_ok Rs)
+                        eq_refl Hif eq_refl Hel rs_facts rs_start_depth rs_body_type).
     - reflexivity.
     - reflexivity.
-    - destruct (fn_kind f); try discriminate; reflexivity.
+    - destruct (fn_kind f); try discriminate; apply rs_facts; try reflexivity; discriminate.
     - reflexivity.
     - reflexivity.
     - exact Hw.
@@ -187,11 +192,11 @@ Proof. destruct (fn_kind f); try discriminate; reflexivity. Qed.
 Section Py.
   Variable q : nquirks.
   Hypothesis Hq1 : q_py_start_from_code q = false.
-  Hypothesis Hq2 : q_py_table_from_code q = false.
 
+  (* the table found in the source and the corrected table both agree with `counts` *)
   Lemma py_facts k : kind_ok Py k = true -> is_branch k = false -> k <> KIf ->
                      smem (py_cls k) (py_controls q) = counts k.
-  Proof. unfold py_controls. rewrite Hq2.
+  Proof. unfold py_controls. destruct (q_py_table_from_code q);
          destruct k as [| | | | | | | | | | | | | | | | | | | |fk name line col]; try destruct fk; intros H1 H2 H3;
            try discriminate; try congruence; reflexivity. Qed.
 
@@ -217,37 +222,28 @@ Section Py.
   Qed.
 End Py.
 
-(* the code as it is (start depth and table from the source): exact up to the constant offset,
-   on files free of the constructs the source table gets wrong (async for, match) *)
-Definition kind_ok_py_actual (k : kind) : bool :=
-  kind_ok Py k && negb (match k with KAsyncFor | KSwitch | KCase => true | _ => false end).
-
+(* the code as it is (start depth taken from the source): exact up to the constant offset *)
 Section PyActual.
   Variable q : nquirks.
   Hypothesis Hq1 : q_py_start_from_code q = true.
-  Hypothesis Hq2 : q_py_table_from_code q = true.
 
-  Lemma py_facts_actual k : kind_ok_py_actual k = true -> is_branch k = false -> k <> KIf ->
+  Lemma py_facts_actual k : kind_ok Py k = true -> is_branch k = false -> k <> KIf ->
                             smem (py_cls k) (py_controls q) = counts k.
-  Proof. unfold py_controls. rewrite Hq2.
+  Proof. unfold py_controls. destruct (q_py_table_from_code q);
          destruct k as [| | | | | | | | | | | | | | | | | | | |fk name line col]; try destruct fk; intros H1 H2 H3;
            try discriminate; try congruence; reflexivity. Qed.
 
-  Definition fn_good_actual (f : fninfo) : Prop :=
-    forallb wf (fn_body f) = true /\ forallb (tree_all kind_ok_py_actual) (fn_body f) = true
-    /\ forallb no_else_if (fn_body f) = true /\ fkind_ok Py (fn_kind f) = true.
-
   Lemma py_calc_actual f :
-    fn_good_actual f -> py_calc q (fn_body f) = sh py_start_depth (maxl (map nest (fn_body f))).
+    fn_good Py f -> py_calc q (fn_body f) = sh py_start_depth (maxl (map nest (fn_body f))).
   Proof.
     intros (Hw & Ha & Hn & _). unfold py_calc, py_start. rewrite Hq1.
-    apply (py_calc_value (py_controls q) kind_ok_py_actual py_facts_actual py_start_depth); assumption.
+    apply (py_calc_value (py_controls q) (kind_ok Py) py_facts_actual py_start_depth); assumption.
   Qed.
 
   (* with the start depth found in the source (0) the computed depth is the documented depth minus one *)
   Corollary py_calc_actual_offset f :
-    fn_good_actual f -> py_calc q (fn_body f) + (1 - py_start_depth) = doc_depth (fn_body f)
-                        \/ (maxl (map nest (fn_body f)) = 0 /\ py_calc q (fn_body f) = 0).
+    fn_good Py f -> py_calc q (fn_body f) + (1 - py_start_depth) = doc_depth (fn_body f)
+                    \/ (maxl (map nest (fn_body f)) = 0 /\ py_calc q (fn_body f) = 0).
   Proof.
     intros H. rewrite (py_calc_actual f H). unfold sh, doc_depth.
     destruct (maxl (map nest (fn_body f))) as [|m]; cbn [Nat.eqb]; [right; split; reflexivity|left].
@@ -308,12 +304,11 @@ Proof. destruct l; reflexivity. Qed.
 
 (* ------------------------------------------------------------------ the same skeleton in every language *)
 Theorem cross_language q limit file :
-  q_py_start_from_code q = false -> q_py_table_from_code q = false -> q_ts_elseif_nests q = false ->
-  q_rs_elseif_nests q = false -> q_rs_table_from_code q = false ->
+  q_py_start_from_code q = false -> q_ts_elseif_nests q = false -> q_rs_elseif_nests q = false ->
   1 <= limit -> file_good Py file = true -> file_good Ts file = true -> file_good Rs file = true ->
   report Py q limit file = report Ts q limit file /\ report Ts q limit file = report Rs q limit file.
 Proof.
-  intros H1 H2 H3 H4 H5 Hl Gp Gt Gr. cbn [report].
-  rewrite (py_report_exact q H1 H2 limit file Hl Gp), (ts_report_exact q H3 limit file Gt),
-          (rs_report_exact q H4 H5 limit file Gr). split; reflexivity.
+  intros H1 H3 H4 Hl Gp Gt Gr. cbn [report].
+  rewrite (py_report_exact q H1 limit file Hl Gp), (ts_report_exact q H3 limit file Gt),
+          (rs_report_exact q H4 limit file Gr). split; reflexivity.
 Qed.
